@@ -41,7 +41,8 @@ def code_list(tier):
         ({"family": "rm", "r": 1, "m": 3}, ["rm_majority", "rm_soft", "ml"]),
         ({"family": "rm", "r": 1, "m": 4}, ["rm_majority", "rm_soft"]),
         ({"family": "cyclic", "n": 7, "g": 0b1011, "info": "left"}, ["syndrome", "ml"]),
-        ({"family": "bch", "mu": 4, "delta": 5, "info": "left"}, ["bm", "syndrome"]),
+        ({"family": "bch", "mu": 4, "delta": 5, "info": "left"}, ["bm", "syndrome", "bp", "minsum"]),  # check rows of equal weight are not contiguous
+        ({"family": "bch", "mu": 4, "delta": 7, "info": "left"}, ["bp"]),
         ({"family": "bch", "mu": 4, "delta": 5, "info": "right"}, ["bm"]),
         ({"family": "bch", "mu": 3, "delta": 3, "info": "left"}, ["bm", "ml"]),
         ({"family": "rs", "mu": 3, "delta": 3, "info": "left"}, ["ml", "syndrome"]),
